@@ -253,3 +253,11 @@ Print Assumptions c14_must_delete_history.
 
 Example c14_must_delete_instance : In [47;47;97] (to_delete [[47;47;97]; [98]] [[98]] [[47]]).
 Proof. exact must_delete_instance. Qed.
+
+(* the upper bound at any position of any history (the other half of the recording oracle) *)
+Theorem c14_may_delete_history : forall runs0 prior e0 r0 e1 r1 rest p,
+  In p (nth (S (length runs0)) (stale_history prior (runs0 ++ (e0, r0) :: (e1, r1) :: rest)) []) ->
+  In p e0 /\ ~ In p e1 /\
+  (r1 <> [] -> absolute p = true /\ exists r, In r r1 /\ comp_prefix (comps r) (comps p) = true).
+Proof. exact may_delete_history. Qed.
+Print Assumptions c14_may_delete_history.
